@@ -3,10 +3,11 @@
 (lines '<seed> <PID> rc=<n> violations=<k> VIOLATION property=.. replay=/verif/replays/<PID>_<group>_<hash>.json ...')."""
 import json, os, re, sys
 V = os.path.dirname(os.path.abspath(__file__))
-log = sys.argv[1]
+logs = sys.argv[1:]
 rows = {}
-for line in open(log):
-    m = re.match(r"(C\d\d_[AB]) (C\d\d) rc=(\d+) violations=(\d+)(.*)", line)
+import itertools
+for line in itertools.chain.from_iterable(open(l) for l in logs):
+    m = re.match(r"(C\d\d_[A-F]) (C\d\d) rc=(\d+) violations=(\d+)(.*)", line)
     if not m:
         continue
     seed, pid, rc, nv, rest = m.group(1), m.group(2), int(m.group(3)), int(m.group(4)), m.group(5)
@@ -15,6 +16,8 @@ for line in open(log):
     rows.setdefault(seed, []).append((pid, rc, nv, groups, native, "UNDECIDED" in rest))
 def what(seed):
     p = os.path.join(V, "seeded", seed, "patch.diff")
+    if not os.path.exists(p):
+        return "?"
     files = sorted(set(re.findall(r"^\+\+\+ b/(\S+)", open(p).read(), re.M)))
     return ", ".join(files)
 out = ["| seed | file changed | detected by (property: failing groups) | failing input reproduced natively |", "|------|--------------|------------------------------------------|------------------------------------|"]
